@@ -86,6 +86,24 @@ pub fn scenarios(tier: Tier) -> Vec<Scenario> {
             }
         }
     }
+    // a full pipeline (middleware + subscriber) fed faster than it drains
+    let mut add_full = |np: u32, k: u32, cap: usize, bound: u32| {
+        let mut spec = StoreSpec::new(1, cap, Pol::Block);
+        spec.mws = 1;
+        let mut prog = Program::new(spec);
+        for p in 0..np {
+            prog = prog.thread(&format!("p{}", p), (0..k).map(|q| Op::Dispatch(Act::new(100 * (p + 1) + q))).collect());
+        }
+        prog = prog.main(vec![Op::AddSub { id: 1, gated: false, reads: false }, Op::SpawnAll, Op::JoinAll, Op::Stop]);
+        v.push(scn(format!("C02/pipeline/P{}k{}cap{}", np, k, cap), prog, bound, verif_rt::RunOpts { elide: vec![ELIDE_RED, ELIDE_MW], ..Default::default() }, |r, _| check(r)));
+    };
+    add_full(1, 3, 1, 2);
+    add_full(2, 2, 1, 1);
+    if tier == Tier::Thorough {
+        add_full(1, 4, 1, 3);
+        add_full(1, 4, 2, 2);
+        add_full(2, 2, 1, 2);
+    }
     // in-context dispatchers: a thunk effect and a middleware hook dispatch children (cap 16 so
     // the in-context dispatch cannot block on its own queue)
     let mut add_ctx = |np: u32, bound: u32, with_mw: bool| {
